@@ -119,6 +119,15 @@ func c18Gettext(c *vk.Ctx) {
 			for _, l := range reg {
 				writePo(l, resource.PoDomain, trans[l])
 			}
+			// the unregistered language has a catalogue on disk all the same (a locale directory shared with other
+			// applications): it was never registered with this resource, so its entries must not be used
+			stray := map[string]string{}
+			for _, kind := range []string{"template", "menu"} {
+				for _, k := range keys {
+					stray[base(kind, k)] = "STRAY:" + base(kind, k)
+				}
+			}
+			writePo(unreg, resource.PoDomain, stray)
 			mustLang := func(code string) lang.Language {
 				l, err := lang.LanguageFromCode(code)
 				if err != nil {
